@@ -472,5 +472,7 @@ func (db *DB) SetReadOnly() error {
 		return ErrClosed
 	}
 
+	// No table compaction is started from now on.
+	atomic.StoreInt32(&db.compReadOnly, 1)
 	return nil
 }
